@@ -15,7 +15,7 @@
         `max_batch_size - 1` more, `update_pending` each, then `process_batch`)            → `run1`
       `process_batch` (every `send_to_sm_worker(..)?` fails once the worker is gone; range from `pending_range`, `start = max(range.start, dispatched_up_to + 1)`,
         `get_entries_range`, the per-entry loop, early `Err` return that drops the unsent tail)  → `processBatch`
-      `apply_config_change` (called only while `last_error.is_none()`)                     → `cfgCalls`
+      `apply_config_change` (called for every Config entry; the first error is the one returned) → `cfgCalls`
       `send_to_sm_worker` (non-empty batch is sent, `dispatched_up_to.fetch_max(last index)`) → `dispatchedAfter`
   * `state_machine_handler/worker.rs` `StateMachineWorker::{run, apply_and_notify}`   → `fetch`, `applyHeld`
       (an `Err` from `apply_chunk` makes `run` return: the worker is gone, its receiver is dropped, the
@@ -137,7 +137,7 @@ def pbStep (a : PB) (e : IEntry) : PB :=
   | .config ok =>
       { batch := [], sent := a.sent ++ [a.batch ++ [e]],
         err := a.err || !ok,
-        cfg := if a.err then a.cfg else a.cfg ++ [(e.1, ok)] }
+        cfg := a.cfg ++ [(e.1, ok)] }   -- every config entry is applied, also after an earlier failure (fix ff1aa00)
   | .empty => a
 
 /-- After the loop: `if let Some(e) = last_error { return Err(e) } else { send_to_sm_worker(batch) }`. -/
